@@ -80,6 +80,12 @@ def run(ctx):
                       lambda P_, f=f: must_pass(P_, 'ProposalApplier::apply_proposals_from_new_member', re.escape(f) + '$'), floor=1)
         ctx.check('MUST-PASS', 'tree changes: new leaves validated', lambda P_: must_pass(P_, 'ProposalApplier::apply_tree_changes', r'ProposalApplier::validate_new_nodes$'), floor=1)
         ctx.check('MUST-PASS', 'tree changes: batch edit', lambda P_: must_pass(P_, 'ProposalApplier::apply_tree_changes', r'TreeKemPublic::batch_edit$'), floor=1)
+    if full:
+        NC = 'ProposalApplier::apply_proposals_with_new_capabilities'
+        ctx.check('WIRE', 'proposals are first applied in the context of the proposed extensions',
+                  lambda P_: wire(P_, NC, r'ProposalApplier::apply_tree_changes$', 3, r'^group_context_extensions_proposal\.proposal$', which='any'), floor=2)
+        ctx.check('WIRE', 'when the extensions proposal is dropped, the rest is re-applied in the CURRENT context',
+                  lambda P_: wire(P_, NC, r'ProposalApplier::apply_tree_changes$', 3, r'^self\.original_context\.extensions$', which='any'), floor=2)
     # path requirement computed by one function on both sides from the applied proposals
     for fq in ('Group::commit_internal', 'MessageProcessor::process_commit'):
         ctx.check('WIRE', 'path requirement from the applied proposals: ' + fq,
